@@ -1,5 +1,15 @@
 import Bptk.Core.C14
-/-! Line-protocol driver for the C14 registry model:  `lake env lean --run Drive/C14.lean < ops` -/
+/-! Line-protocol driver for the C14 registry model:  `lake env lean --run Drive/C14.lean < ops`
+
+requests
+  cfg countById|idsAliased 0|1
+  new <k,k,…|->                 fresh registry with these registered factory keys; factories faithful
+  fac <k> <a,a,…|->             factory of key k answers attribute list[id % len] (faithful when `-`)
+  create k | delete ids | configure spec | configureall spec | reset | setstate i s     → ok | ERR (raises)
+  callerappend t x              model.agent_ids(t).append(x)                             → ok | ERR
+  query                         every query on types 0..2, states 0..2, ids 0..next+1
+  q lookup i | q ids t | q cnt t | q cps t s | q nx t s | q rnd t num u,u,…   single queries (u = 64·random())
+-/
 open Bptk.C14
 
 def parseNats (s : String) : Option (List Nat) :=
@@ -15,45 +25,103 @@ def showOpt : Option Nat → String
   | some n => toString n
   | none => "ERR"
 
+def showList : Option (List Nat) → String
+  | some l => ",".intercalate (l.map toString)
+  | none => "ERR"
+
+def showAgent (i : Nat) : Option Agent → String
+  | some a => s!"a{i}={a.id}.{a.ty}.{a.state}"
+  | none => s!"a{i}=none"
+
+def showNx : Option Nat → String
+  | some i => toString i
+  | none => "none"
+
+structure St where
+  c : Cfg
+  tbl : List (Nat × List Nat)
+  r : Reg
+
+def St.fac (s : St) : Fac := fun k i =>
+  match s.tbl.lookup k with
+  | some l => if l.isEmpty then k else l.getD (i % l.length) k
+  | none => k
+
 def query (c : Cfg) (r : Reg) : String :=
-  let tys := [0, 1]
+  let tys := [0, 1, 2]
   let sts := [0, 1, 2]
-  let ids := String.intercalate ";" (tys.map fun t => s!"ids{t}=" ++ ",".intercalate ((agentIds r t).map toString))
-  let cnt := String.intercalate ";" (tys.map fun t => s!"cnt{t}={count r t}")
+  let ids := String.intercalate ";" (tys.map fun t => s!"ids{t}=" ++ showList (agentIdsE r t))
+  let cnt := String.intercalate ";" (tys.map fun t => s!"cnt{t}={showOpt (countE r t)}")
   let cps := String.intercalate ";" (tys.flatMap fun t => sts.map fun s => s!"cps{t}.{s}={showOpt (countPerState c r t s)}")
-  let lk := String.intercalate ";" ((List.range (r.next + 2)).map fun i =>
-    match lookup r i with
-    | some a => s!"a{i}={a.id}.{a.ty}.{a.state}"
-    | none => s!"a{i}=none")
-  let nx := String.intercalate ";" (tys.flatMap fun t => sts.map fun s =>
-    s!"nx{t}.{s}=" ++ (match nextAgent r t s with | some i => toString i | none => "none"))
+  let lk := String.intercalate ";" ((List.range (r.next + 2)).map fun i => showAgent i (lookup r i))
+  let nx := String.intercalate ";" (tys.flatMap fun t => sts.map fun s => s!"nx{t}.{s}=" ++ showNx (nextAgent r t s))
   s!"{ids};{cnt};{cps};{lk};{nx};next={r.next}"
 
-def stepLine (c : Cfg) (r : Reg) (line : String) : Cfg × Reg × String :=
-  match line.trimAscii.toString.splitOn " " with
-  | ["cfg", "countById", v] => ({ c with countById := v == "1" }, r, "ok")
-  | ["new"] => (c, Reg.init, "ok")
-  | ["create", t] => match t.toNat? with
-      | some t => (c, step r (.create t), "ok")
-      | none => (c, r, "bad-op")
-  | ["delete", l] => match parseNats l with
-      | some ids => (c, step r (.delete ids), "ok")
-      | none => (c, r, "bad-op")
-  | ["configure", s] => match parseSpec s with
-      | some sp => (c, step r (.configure sp), "ok")
-      | none => (c, r, "bad-op")
-  | ["reset"] => (c, step r .reset, "ok")
-  | ["setstate", i, s] => match i.toNat?, s.toNat? with
-      | some i, some s => (c, step r (.setState i s), "ok")
-      | _, _ => (c, r, "bad-op")
-  | ["query"] => (c, r, query c r)
-  | _ => (c, r, "bad-op")
+def doOp (s : St) (o : Op) : St × String :=
+  ({ s with r := step s.fac s.r o }, if raises s.r o then "ERR" else "ok")
 
-partial def loop (h : IO.FS.Stream) (c : Cfg) (r : Reg) : IO Unit := do
+def bad (s : St) : St × String := (s, "bad-op")
+
+def stepLine (s : St) (line : String) : St × String :=
+  match line.trimAscii.toString.splitOn " " with
+  | ["cfg", "countById", v] => ({ s with c := { s.c with countById := v == "1" } }, "ok")
+  | ["cfg", "idsAliased", v] => ({ s with c := { s.c with idsAliased := v == "1" } }, "ok")
+  | ["new", ks] => match parseNats ks with
+      | some ks => ({ s with tbl := [], r := Reg.init (fun t => ks.contains t) }, "ok")
+      | none => bad s
+  | ["fac", k, l] => match k.toNat?, parseNats l with
+      | some k, some l => ({ s with tbl := (k, l) :: s.tbl }, "ok")
+      | _, _ => bad s
+  | ["create", t] => match t.toNat? with
+      | some t => doOp s (.create t)
+      | none => bad s
+  | ["delete", l] => match parseNats l with
+      | some ids => doOp s (.delete ids)
+      | none => bad s
+  | ["configure", sp] => match parseSpec sp with
+      | some sp => doOp s (.configure sp)
+      | none => bad s
+  | ["configureall", sp] => match parseSpec sp with
+      | some sp => doOp s (.configureAll sp)
+      | none => bad s
+  | ["reset"] => doOp s .reset
+  | ["setstate", i, st] => match i.toNat?, st.toNat? with
+      | some i, some st => doOp s (.setState i st)
+      | _, _ => bad s
+  | ["callerappend", t, x] => match t.toNat?, x.toNat? with
+      | some t, some x => ({ s with r := stepX s.c s.fac s.r (.callerAppend t x) },
+                           if s.r.mapped t then "ok" else "ERR")
+      | _, _ => bad s
+  | ["query"] => (s, query s.c s.r)
+  | ["q", "lookup", i] => match i.toNat? with
+      | some i => (s, showAgent i (lookup s.r i))
+      | none => bad s
+  | ["q", "ids", t] => match t.toNat? with
+      | some t => (s, s!"ids{t}=" ++ showList (agentIdsE s.r t))
+      | none => bad s
+  | ["q", "cnt", t] => match t.toNat? with
+      | some t => (s, s!"cnt{t}={showOpt (countE s.r t)}")
+      | none => bad s
+  | ["q", "cps", t, st] => match t.toNat?, st.toNat? with
+      | some t, some st => (s, s!"cps{t}.{st}={showOpt (countPerState s.c s.r t st)}")
+      | _, _ => bad s
+  | ["q", "nx", t, st] => match t.toNat?, st.toNat? with
+      | some t, some st => (s, s!"nx{t}.{st}=" ++ showNx (nextAgent s.r t st))
+      | _, _ => bad s
+  | ["q", "rnd", t, n, us] => match t.toNat?, n.toNat?, parseNats us with
+      | some t, some n, some us =>
+          if us.all (· < 64) then
+            (s, s!"rnd{t}.{n}=" ++ showList (randomAgents s.r t n (fun j => (us.getD j 0, 64))))
+          else bad s
+      | _, _, _ => bad s
+  | _ => bad s
+
+partial def loop (h : IO.FS.Stream) (s : St) : IO Unit := do
   let line ← h.getLine
   if line.isEmpty then return ()
-  let (c', r', out) := stepLine c r line
+  let (s', out) := stepLine s line
   IO.println out
-  loop h c' r'
+  loop h s'
 
-def main : IO Unit := do loop (← IO.getStdin) { countById := true } Reg.init
+def main : IO Unit := do
+  loop (← IO.getStdin) { c := { countById := true, idsAliased := true }, tbl := [], r := Reg.init (fun _ => true) }
